@@ -375,6 +375,12 @@ pub fn coin_relations(coins: &[(String, Scalar)], others: &[(String, Scalar)], p
     let mut operands: Vec<(String, Scalar)> = coins.to_vec();
     operands.extend(others.iter().cloned());
     operands.push(("1".into(), Scalar::ONE));
+    // inverses of the secrets / constants (a coin that is ±1/w, w/w', …): e.g. a randomiser r reused as the nonce of its own inverse
+    for (n, v) in others.iter() {
+        if let Some(inv) = Option::<Scalar>::from(v.invert()) {
+            operands.push((format!("1/{}", n), inv));
+        }
+    }
     for (i, (ni, ci)) in coins.iter().enumerate() {
         if bool::from(ci.is_zero()) {
             found.push(format!("{}=0", ni));
